@@ -2,6 +2,7 @@ package chainsim
 
 import (
 	"bytes"
+	"fmt"
 	"time"
 
 	"github.com/btcsuite/btcd/address/v2"
@@ -10,6 +11,7 @@ import (
 	"github.com/btcsuite/btcd/chaincfg/v2"
 	"github.com/btcsuite/btcd/chainhash/v2"
 	"github.com/btcsuite/btcd/txscript/v2"
+	"github.com/btcsuite/btcd/wire/v2"
 
 	"verif/harness/simkit"
 )
@@ -79,6 +81,22 @@ func (s *Sim) CheckTemplate() {
 			panic(err)
 		}
 		payTo = a
+	}
+	// On a network with the "no block for a while => minimum difficulty" rule
+	// the required bits depend on the template's own time: put the clock just
+	// past the window, so that a later step back (clock skew, below) moves the
+	// template back into it.
+	windowPlay := false
+	if d := &w.Net.Diff; !d.NoRetarget && d.ReduceMinDiff && !s.clockSteppedBack && (tip.Height+1)%int32(d.interval()) != 0 &&
+		d.nextBits(tip.H, tip.H.ts+1) != d.PowLimitBits && c.Bool(600, "tmpl-min-diff-window") {
+		edge := tip.H.ts + d.MinDiffTimeS
+		if gap := edge + 1 + int64(c.Intn(30, "tmpl-window-past")) - s.adjNow(); gap > 0 {
+			s.Advance(time.Duration(gap) * time.Second)
+		}
+		windowPlay = s.adjNow() > edge && s.adjNow() > tip.mtp()
+		if windowPlay {
+			r.Probe("template-just-past-the-min-difficulty-window")
+		}
 	}
 	prePool := s.poolSet()
 	tmpl, err := s.n.Gen.NewBlockTemplate(payTo)
@@ -209,7 +227,20 @@ func (s *Sim) CheckTemplate() {
 	}
 
 	// update time / extra nonce at a later clock value, solve, feed back
-	if c.Bool(500, "tmpl-advance") {
+	if windowPlay && s.n.Tip() == tip && c.Bool(700, "tmpl-clock-back") {
+		// clock skew: time samples of peers move the adjusted clock back
+		// into the window; the template's bits have to follow its time
+		edge := tip.H.ts + w.Net.Diff.MinDiffTimeS
+		back := s.adjNow() - edge + int64(c.Intn(40, "tmpl-back-extra"))
+		if s.stepClockBack(back) {
+			r.Fault("clock_step_back")
+			r.Probe("template-time-updated-after-clock-step-back")
+		}
+		if err := s.n.Gen.UpdateBlockTime(msg); err != nil {
+			r.Violate("C12", "update-block-time", "", "UpdateBlockTime: %v", err)
+		}
+		s.checkUpdatedTime(tip, msg)
+	} else if c.Bool(500, "tmpl-advance") {
 		wait := int64(simkit.Range(c, 1, 900, "tmpl-wait"))
 		if ahead := s.n.Tip().mtp() - s.adjNow(); ahead >= 0 && c.Bool(600, "tmpl-clock-at-mtp") {
 			// the chain's median time is ahead of the clock: move the clock
@@ -223,6 +254,9 @@ func (s *Sim) CheckTemplate() {
 		s.Advance(time.Duration(wait) * time.Second)
 		if err := s.n.Gen.UpdateBlockTime(msg); err != nil {
 			r.Violate("C12", "update-block-time", "", "UpdateBlockTime: %v", err)
+		}
+		if s.n.Tip() == tip {
+			s.checkUpdatedTime(tip, msg)
 		}
 		r.Probe("template-time-updated")
 	}
@@ -253,4 +287,52 @@ func (s *Sim) CheckTemplate() {
 	s.ackCommit[b] = s.commits()
 	s.CheckState("template-block")
 	s.CheckPool("template-block")
+}
+
+// checkUpdatedTime: after UpdateBlockTime the header carries the later of the
+// adjusted clock and one second past the tip's median time, and the bits the
+// chain requires of a block with that time.
+func (s *Sim) checkUpdatedTime(tip *MBlock, msg *wire.MsgBlock) {
+	r := s.r
+	d := &s.w.Net.Diff
+	now := s.adjNow()
+	// the earliest time a block on this tip may carry
+	earliest := tip.mtp() + 1
+	if d.BIP94 && (tip.Height+1)%d.interval() == 0 && tip.H.ts-600 > earliest {
+		earliest = tip.H.ts - 600
+		r.Probe("template-time-on-a-bip94-boundary-behind-the-tip")
+	}
+	ts := msg.Header.Timestamp.Unix()
+	r.Event("template-time", "ts=%d bits=%08x", ts, msg.Header.Bits)
+	switch {
+	case now >= earliest && ts != now:
+		r.Violate("C12", "update-block-time", "", "after UpdateBlockTime the template time is %d; the adjusted clock reads %d, which the chain allows (earliest %d)", ts, now, earliest)
+	case ts < earliest || ts > now+7200:
+		r.Violate("C12", "update-block-time", "", "after UpdateBlockTime the template time is %d; the chain allows %d..%d", ts, earliest, now+7200)
+	}
+	if bits := d.nextBits(tip.H, ts); msg.Header.Bits != bits {
+		r.Violate("C12", "update-block-time", "", "after UpdateBlockTime the template (time %d, %d s after its parent) has bits %08x, the chain requires %08x", ts, ts-tip.H.ts, msg.Header.Bits, bits)
+	}
+}
+
+// stepClockBack moves the node's adjusted clock back by d seconds the way it
+// happens in the field: enough peers report a clock that much behind for the
+// median offset to follow.  It reports whether the offset moved.
+func (s *Sim) stepClockBack(d int64) bool {
+	if d <= 0 {
+		return false
+	}
+	before := int64(s.n.Time.Offset() / time.Second)
+	target := before - d
+	if target <= -4000 || target >= 4000 {
+		return false // beyond what the median-offset rule accepts
+	}
+	s.clockSteppedBack = true
+	for i := 0; i < 60 && int64(s.n.Time.Offset()/time.Second) != target; i++ {
+		s.skewPeers++
+		s.n.Time.AddTimeSample(fmt.Sprintf("skewed-peer-%d", s.skewPeers), time.Now().Add(time.Duration(target)*time.Second))
+	}
+	after := int64(s.n.Time.Offset() / time.Second)
+	s.r.Event("clock-step-back", "offset %d -> %d (wanted %d)", before, after, target)
+	return after < before
 }
